@@ -226,7 +226,7 @@ def instantiate(qf, univ, goal, rounds=2, extra_terms=(), budget=60000):
     total = 0
     sums_done = set()
     triggers = {}
-    all_ground = []
+    usage_acc = {'sel': {}, 'apps': {}, 'seen': set(), 'appseen': set()}
     new_exprs = ground + [goal] + list(extra_terms)
     for rnd in range(rounds + 1):
         t_new = index_terms(new_exprs, bound, seen_terms)
@@ -244,8 +244,7 @@ def instantiate(qf, univ, goal, rounds=2, extra_terms=(), budget=60000):
             ground += fresh_exprs
             break
         tl = list(terms.values())
-        all_ground.extend(new_exprs)
-        usage = term_usage(all_ground, bound)
+        usage = term_usage(new_exprs, bound, usage_acc)
         for ui, (vars_, body) in enumerate(univ):
             if ui not in triggers:
                 triggers[ui] = (_find_trigger(vars_, body) if len(vars_) >= 2 else None, var_patterns(vars_, body))
@@ -348,10 +347,12 @@ def _base_array(a):
     return a
 
 
-def term_usage(exprs, bound_ids):
-    """ground index terms per base array, ground applications per uninterpreted function"""
-    sel, apps = {}, {}
-    seen = set()
+def term_usage(exprs, bound_ids, acc=None):
+    """ground index terms per base array, ground applications per uninterpreted function (incremental when acc is given)"""
+    if acc is None:
+        acc = {'sel': {}, 'apps': {}, 'seen': set(), 'appseen': set()}
+    sel, apps = acc['sel'], acc['apps']
+    seen = acc['seen']
 
     def visit(x):
         if not z3.is_app(x):
@@ -365,10 +366,12 @@ def term_usage(exprs, bound_ids):
                 sel.setdefault(key, {})[idx.get_id()] = idx
                 sel.setdefault(None, {})[idx.get_id()] = idx
         elif kd == z3.Z3_OP_UNINTERPRETED and x.num_args() > 0 and not _mentions(x, bound_ids):
-            apps.setdefault(x.decl().name(), []).append(x)
+            if x.get_id() not in acc['appseen']:
+                acc['appseen'].add(x.get_id())
+                apps.setdefault(x.decl().name(), []).append(x)
     for e in exprs:
         _walk(e, seen, visit)
-    return {'sel': sel, 'apps': apps}
+    return acc
 
 
 def var_patterns(vars_, body):
